@@ -90,9 +90,44 @@ def shape(pattern, flags=0):
     return out
 
 
+_AT_START = ("AT_BEGINNING_STRING", "AT_BEGINNING")
+_AT_END_STRICT = ("AT_END_STRING",)
+
+
+def _anchors(pattern, flags=0):
+    """(core items, anchored_at_start, anchored_at_very_end): leading `^` (without MULTILINE) / `\\A` and a trailing `\\Z` are
+    positions, not text; `$` is NOT the very end (it also matches in front of a final newline) and stays in the core"""
+    sh = list(shape(pattern, flags))
+    start = end = False
+    multiline = bool(flags & re.MULTILINE)
+    while sh and sh[0][0] == "at" and (sh[0][1] == "AT_BEGINNING_STRING" or (sh[0][1] == "AT_BEGINNING" and not multiline)):
+        sh.pop(0)
+        start = True
+    while sh and sh[-1][0] == "at" and sh[-1][1] in _AT_END_STRICT:
+        sh.pop()
+        end = True
+    return sh, start, end
+
+
+def is_full(pattern, flags, method):
+    """does `PATTERN.<method>(s)` succeed only when the *whole* of s is in the pattern's language?  fullmatch always;
+    match when the pattern ends in `\\Z`; search when it also starts with `\\A` / `^` (no MULTILINE)"""
+    if method == "fullmatch":
+        return True
+    try:
+        sh, start, end = _anchors(pattern, flags)
+    except AnalysisError:
+        return False
+    if method == "match":
+        return end
+    if method == "search":
+        return start and end
+    return False
+
+
 def single_class(pattern, flags=0):
-    """(charset, min, max) for patterns of the form [class]{m,n}"""
-    sh = [x for x in shape(pattern, flags)]
+    """(charset, min, max) for patterns of the form [class]{m,n}, possibly between `^` / `\\A` and `\\Z`"""
+    sh, _s, _e = _anchors(pattern, flags)
     if len(sh) != 1 or sh[0][0] != "class":
         raise AnalysisError("pattern %r is not a single repeated character class" % (pattern,))
     return sh[0][1], sh[0][2], sh[0][3]
